@@ -50,6 +50,7 @@ func (db *PreparedStmtDB) Close() {
 		go func(s *Stmt) {
 			// make sure the stmt must finish preparation first
 			<-s.prepared
+			verifPoint("ps:closer", s)
 			if s.Stmt != nil {
 				_ = s.Close()
 			}
@@ -67,6 +68,7 @@ func (sdb *PreparedStmtDB) Reset() {
 		go func(s *Stmt) {
 			// make sure the stmt must finish preparation first
 			<-s.prepared
+			verifPoint("ps:closer", s)
 			if s.Stmt != nil {
 				_ = s.Close()
 			}
@@ -79,6 +81,7 @@ func (db *PreparedStmtDB) prepare(ctx context.Context, conn ConnPool, isTransact
 	db.Mux.RLock()
 	if stmt, ok := db.Stmts[query]; ok && (!stmt.Transaction || isTransaction) {
 		db.Mux.RUnlock()
+		verifPoint("ps:hit", ctx, stmt)
 		// wait for other goroutines prepared
 		<-stmt.prepared
 		if stmt.prepareErr != nil {
@@ -88,11 +91,13 @@ func (db *PreparedStmtDB) prepare(ctx context.Context, conn ConnPool, isTransact
 		return *stmt, nil
 	}
 	db.Mux.RUnlock()
+	verifPoint("ps:miss", ctx)
 
 	db.Mux.Lock()
 	// double check
 	if stmt, ok := db.Stmts[query]; ok && (!stmt.Transaction || isTransaction) {
 		db.Mux.Unlock()
+		verifPoint("ps:hit", ctx, stmt)
 		// wait for other goroutines prepared
 		<-stmt.prepared
 		if stmt.prepareErr != nil {
@@ -111,6 +116,7 @@ func (db *PreparedStmtDB) prepare(ctx context.Context, conn ConnPool, isTransact
 	cacheStmt := Stmt{Transaction: isTransaction, prepared: make(chan struct{})}
 	db.Stmts[query] = &cacheStmt
 	db.Mux.Unlock()
+	verifPoint("ps:inserted", ctx, &cacheStmt)
 
 	// prepare completed
 	defer close(cacheStmt.prepared)
@@ -122,6 +128,7 @@ func (db *PreparedStmtDB) prepare(ctx context.Context, conn ConnPool, isTransact
 	// 3. g1 tx exec insert, wait for unlock `conn.PrepareContext(ctx, query)` to finish tx and release.
 	stmt, err := conn.PrepareContext(ctx, query)
 	if err != nil {
+		verifPoint("ps:prepfail", ctx, &cacheStmt)
 		cacheStmt.prepareErr = err
 		db.Mux.Lock()
 		delete(db.Stmts, query)
@@ -129,6 +136,7 @@ func (db *PreparedStmtDB) prepare(ctx context.Context, conn ConnPool, isTransact
 		return Stmt{}, err
 	}
 
+	verifPoint("ps:prepared", ctx, &cacheStmt)
 	db.Mux.Lock()
 	cacheStmt.Stmt = stmt
 	db.Mux.Unlock()
@@ -160,8 +168,10 @@ func (db *PreparedStmtDB) BeginTx(ctx context.Context, opt *sql.TxOptions) (Conn
 func (db *PreparedStmtDB) ExecContext(ctx context.Context, query string, args ...interface{}) (result sql.Result, err error) {
 	stmt, err := db.prepare(ctx, db.ConnPool, false, query)
 	if err == nil {
+		verifPoint("ps:use", ctx, &stmt)
 		result, err = stmt.ExecContext(ctx, args...)
 		if errors.Is(err, driver.ErrBadConn) {
+			verifPoint("ps:badconn", ctx)
 			db.Mux.Lock()
 			defer db.Mux.Unlock()
 			go stmt.Close()
@@ -174,8 +184,10 @@ func (db *PreparedStmtDB) ExecContext(ctx context.Context, query string, args ..
 func (db *PreparedStmtDB) QueryContext(ctx context.Context, query string, args ...interface{}) (rows *sql.Rows, err error) {
 	stmt, err := db.prepare(ctx, db.ConnPool, false, query)
 	if err == nil {
+		verifPoint("ps:use", ctx, &stmt)
 		rows, err = stmt.QueryContext(ctx, args...)
 		if errors.Is(err, driver.ErrBadConn) {
+			verifPoint("ps:badconn", ctx)
 			db.Mux.Lock()
 			defer db.Mux.Unlock()
 
@@ -228,8 +240,10 @@ func (tx *PreparedStmtTX) Rollback() error {
 func (tx *PreparedStmtTX) ExecContext(ctx context.Context, query string, args ...interface{}) (result sql.Result, err error) {
 	stmt, err := tx.PreparedStmtDB.prepare(ctx, tx.Tx, true, query)
 	if err == nil {
+		verifPoint("ps:use", ctx, &stmt)
 		result, err = tx.Tx.StmtContext(ctx, stmt.Stmt).ExecContext(ctx, args...)
 		if errors.Is(err, driver.ErrBadConn) {
+			verifPoint("ps:badconn", ctx)
 			tx.PreparedStmtDB.Mux.Lock()
 			defer tx.PreparedStmtDB.Mux.Unlock()
 
@@ -243,8 +257,10 @@ func (tx *PreparedStmtTX) ExecContext(ctx context.Context, query string, args ..
 func (tx *PreparedStmtTX) QueryContext(ctx context.Context, query string, args ...interface{}) (rows *sql.Rows, err error) {
 	stmt, err := tx.PreparedStmtDB.prepare(ctx, tx.Tx, true, query)
 	if err == nil {
+		verifPoint("ps:use", ctx, &stmt)
 		rows, err = tx.Tx.StmtContext(ctx, stmt.Stmt).QueryContext(ctx, args...)
 		if errors.Is(err, driver.ErrBadConn) {
+			verifPoint("ps:badconn", ctx)
 			tx.PreparedStmtDB.Mux.Lock()
 			defer tx.PreparedStmtDB.Mux.Unlock()
 
